@@ -873,7 +873,7 @@ func runC08(r *Run, rng *Rng, replay string) {
 	// 2. random work-groups: wavefront formation and lane registers
 	nWG := 1200
 	if thorough {
-		nWG = 40000
+		nWG = 120000
 	}
 	for i := 0; i < nWG; i++ {
 		dims := rng.Pick(1, 2, 2, 2, 3, 3)
@@ -890,7 +890,7 @@ func runC08(r *Run, rng *Rng, replay string) {
 	// 3. random enumerations with Skip, filters of 1-4 GPUs
 	nEnum := 500
 	if thorough {
-		nEnum = 12000
+		nEnum = 30000
 	}
 	for i := 0; i < nEnum; i++ {
 		w := c08RandWG(rng, rng.Pick(1, 2, 2, 3, 3))
@@ -915,7 +915,7 @@ func runC08(r *Run, rng *Rng, replay string) {
 	// 4. partition algorithm
 	nPart := 300
 	if thorough {
-		nPart = 6000
+		nPart = 12000
 	}
 	for i := 0; i < nPart; i++ {
 		w := c08RandWG(rng, rng.Pick(1, 2, 3))
@@ -935,7 +935,7 @@ func runC08(r *Run, rng *Rng, replay string) {
 	// 5. whole-grid oracle on random small grids (both modes)
 	nGrid := 120
 	if thorough {
-		nGrid = 3000
+		nGrid = 8000
 	}
 	for i := 0; i < nGrid; i++ {
 		w := c08RandWG(rng, rng.Pick(1, 2, 2, 3))
